@@ -166,7 +166,7 @@ func Load(o LoadOpts) (*Program, error) {
 	// enumerate receptor functions
 	all := ssautil.AllFunctions(prog)
 	for fn := range all {
-		if p.IsReceptorFn(fn) && fn.Blocks != nil {
+		if p.IsReceptorFn(fn) && fn.Blocks != nil && fn.Synthetic == "" {
 			p.funcs = append(p.funcs, fn)
 		}
 	}
